@@ -47,8 +47,14 @@ func verifFillPaths(sw *spec.Swagger, ops map[string]map[string]*spec.Operation)
 			pi := sw.Paths.Paths[path]
 			switch method {
 			case "GET":
+				if pi.Get == op {
+					continue // already consistent: the document is not written to again
+				}
 				pi.Get = op
 			case "POST":
+				if pi.Post == op {
+					continue
+				}
 				pi.Post = op
 			}
 			sw.Paths.Paths[path] = pi
@@ -619,7 +625,13 @@ func HarnessC10WholeValidate() {
 	}
 	run := func(cont bool) (verifOutcome, verifOutcome) { return runWholeValidate(sw, ops, cont) }
 	cont := verifBool()
+	// repeatability = the outcome is a function of the document + the document is left as it was:
+	// the caller's document and operations are frozen during the first validation
+	verifFillPaths(sw, ops)
+	verifFreeze(sw, "specification")
+	verifFreeze(ops, "operations")
 	errs, warns := run(cont)
+	verifUnfreeze()
 	verifObserve("valid", errs.valid)
 	verifAssert(errs.valid == !(badDefault || undefinedReq || badParam), "errors-exactly-for-broken-rules")
 	verifAssert(verifImplies(!(badDefault || undefinedReq || badParam), errs.valid), "warnings-alone-never-invalidate")
